@@ -513,10 +513,14 @@ namespace Pistache::Rest
                 return Route::Status::Match;
         }
 
-        auto& r              = routes[req.method()];
         const auto sanitized = SegmentTreeNode::sanitizeResource(resource);
         const std::string_view path { sanitized.data(), sanitized.size() };
-        auto result = r.findRoute(path);
+        // lookup only: operator[] would insert an empty tree for a method without
+        // routes, i.e. modify the shared table while other workers read it
+        std::tuple<std::shared_ptr<Route>, std::vector<TypedParam>, std::vector<TypedParam>> result;
+        const auto methodRoutes = routes.find(req.method());
+        if (methodRoutes != routes.end())
+            result = methodRoutes->second.findRoute(path);
 
         auto route = std::get<0>(result);
         if (route != nullptr)
